@@ -14,8 +14,9 @@
 (* Actions mirror the code: Seed (mono of the roots), Pop (take the front   *)
 (* of `work`, emit the instance into `out`, call Ensure for every edge),    *)
 (* Ensure (look up `instances`; else name it, record it, and queue it       *)
-(* unless already `queued`).  Dedup = FALSE removes the `queued`/`instances` *)
-(* test and is the self-test: Once must then fail.                          *)
+(* unless already `queued`; Refuse when the instance asked for is beyond the *)
+(* size bound -- polymorphic recursion).  Dedup = FALSE removes the          *)
+(* `queued`/`instances` test and is the self-test: Once must then fail.      *)
 (***************************************************************************)
 EXTENDS Integers, Sequences, FiniteSets, TLC
 
@@ -67,13 +68,17 @@ Pop ==
 
 Done == st = "run" /\ pending = {} /\ work = <<>>
 Diverged == \E c \in pending : c[2] > MaxDepth     \* polymorphic recursion: the closure is infinite
+Refused == st = "refused"
 
-EnsureStep == ~Diverged /\ Ensure
-SeedStep == ~Diverged /\ Seed
-PopStep == ~Diverged /\ Pop
-Idle == Done /\ UNCHANGED vars
-Next == EnsureStep \/ SeedStep \/ PopStep \/ Idle
-Spec == Init /\ [][Next]_vars /\ WF_vars(EnsureStep \/ SeedStep \/ PopStep)
+\* ensure_instance refuses an instance whose type arguments are larger than the bound (MAX_INSTANCE_TYPE_SIZE in the code,
+\* MaxDepth here) and monomorphisation ends with an error: the worklist of a program with polymorphic recursion never drains
+Refuse == Diverged /\ ~Refused /\ st' = "refused" /\ UNCHANGED <<edges, roots, instances, queued, work, out, pending>>
+EnsureStep == ~Diverged /\ ~Refused /\ Ensure
+SeedStep == ~Diverged /\ ~Refused /\ Seed
+PopStep == ~Diverged /\ ~Refused /\ Pop
+Idle == (Done \/ Refused) /\ UNCHANGED vars
+Next == EnsureStep \/ SeedStep \/ PopStep \/ Refuse \/ Idle
+Spec == Init /\ [][Next]_vars /\ WF_vars(EnsureStep \/ SeedStep \/ PopStep \/ Refuse)
 
 -----------------------------------------------------------------------------
 \* reachable instances, computed declaratively
@@ -92,4 +97,7 @@ Injective == \A a, b \in instances : NameFn[a] = NameFn[b] => a = b
 \* the worklist drains iff the closure is finite (within the bound)
 Terminates == Finite => <>Done
 NoDivergeIfFinite == Finite => ~Diverged
+\* every program ends: with all its instances, or refused -- and refused only when the closure really is infinite
+AlwaysEnds == <>(Done \/ Refused)
+RefusedOnlyIfInfinite == Refused => ~Finite
 =============================================================================
